@@ -181,6 +181,8 @@ class BaseWorklist(list):
             raise InvalidOperationError(
                 "DiTi type can only be switched at the beginning or after a Break/commit step. Read the docstring."
             )
+        if not isinstance(diti_index, (int, numpy.integer)) or diti_index < 0:
+            raise ValueError(f"Invalid diti_index: {diti_index}")
         self.append(f"S;{diti_index}")
         return
 
@@ -387,10 +389,16 @@ class BaseWorklist(list):
             if not isinstance(position, (int, numpy.integer)) or position < 0:
                 raise ValueError(f"Invalid position: {position}")
 
+        for count in (diti_reuse, multi_disp):
+            if not isinstance(count, (int, numpy.integer)) or count < 1:
+                raise ValueError(f"Invalid diti_reuse or multi_disp: {count}")
         if exclude_wells is None:
             exclude_list = []
         else:
             exclude_list = list(exclude_wells)
+        for well in exclude_list:
+            if not isinstance(well, (int, numpy.integer)):
+                raise ValueError(f"Invalid excluded well: {well}")
         if len(exclude_list) > 0:
             # check that all excluded wells fall in the range
             dst_range = set(range(dst_start, dst_end + 1))
